@@ -167,3 +167,15 @@ def make_cond(glob, name, body, sig, pres, fixed=None, **kw):
     expr = "BODIES[%r](SYM, %s)" % (name, ", ".join("%s=%s" % (q, q) for q in params))
     fn = mkh(glob, "h_" + name, sig, pres, expr)
     return Cond(name, fn, **kw)
+
+
+def split_conds(glob, name, body, sig, pres, over, values, fixed=None, bounds="", **kw):
+    """One condition per value of the structure parameter `over` (so that the
+    conditions run in parallel processes); the parameter becomes concrete."""
+    out = []
+    for v in values:
+        f = dict(fixed or {})
+        f[over] = v
+        out.append(make_cond(glob, "%s_%s%s" % (name, over, v), body, sig, pres, fixed=f,
+                             bounds="%s [%s=%s]" % (bounds, over, v), **kw))
+    return out
